@@ -31,6 +31,7 @@ class Acc:
         self.failures = {}      # sig -> {'sig','what','case','size'}
         self.excluded = Counter()   # sig -> number of further cases with it
         self.extra = {}
+        self.fallback_sample = None
 
     # ---- recording -------------------------------------------------------
     def case(self, key=None, nontrivial=False, labels=(), sample=None):
@@ -43,6 +44,11 @@ class Acc:
             self.labels[label] += 1
         if sample is not None and len(self.samples) < MAX_SAMPLES:
             self.samples.append(sample)
+        elif sample is None and self.fallback_sample is None and \
+                key is not None:
+            # keep one actual case in any event (evidence needs a sample)
+            text = key if isinstance(key, str) else repr(key)
+            self.fallback_sample = {'case': text[:600]}
 
     def label(self, *labels):
         for label in labels:
@@ -70,7 +76,8 @@ class Acc:
             'evaluations': self.evaluations,
             'nontrivial': sorted(self.nontrivial),
             'labels': dict(self.labels),
-            'samples': self.samples,
+            'samples': self.samples or (
+                [self.fallback_sample] if self.fallback_sample else []),
             'discarded': self.discarded,
             'failures': self.failures,
             'excluded': dict(self.excluded),
